@@ -13,7 +13,16 @@ namespace Ellipse
 def offsetSize (s : Sz) (o : Int) : Sz :=
   if o ≥ 0 then s.satAdd (Sz.newEqual (2 * o.toNat)) else s.satSub (Sz.newEqual (2 * (-o).toNat))
 
-theorem offset_def (e : Ellipse) (o : Int) : e.offset o = withCenter e.center (offsetSize e.size o) := rfl
+theorem offset_nonneg (e : Ellipse) (o : Int) (h : o ≥ 0) :
+    e.offset o = ⟨e.tl - ⟨o, o⟩, offsetSize e.size o⟩ := by
+  unfold offset offsetSize; rw [if_pos h, if_pos h]
+theorem offset_neg (e : Ellipse) (o : Int) (h : ¬ o ≥ 0) :
+    e.offset o = withCenter e.center (offsetSize e.size o) := by
+  unfold offset offsetSize; rw [if_neg h, if_neg h]
+theorem offset_size (e : Ellipse) (o : Int) : (e.offset o).size = offsetSize e.size o := by
+  by_cases h : o ≥ 0
+  · rw [offset_nonneg e o h]
+  · rw [offset_neg e o h]; rfl
 
 theorem withCenter_def (e : Ellipse) (s' : Sz) :
     withCenter e.center s' =
@@ -42,33 +51,48 @@ theorem withCenter_center2x (e : Ellipse) (s' : Sz) (hw : 1 ≤ e.size.w) (hh : 
   constructor <;> omega
 
 /-- **`offset` by `k ≥ 0` grows the ellipse by `k` on every side** (no `u32` saturation). -/
-theorem offset_grow (e : Ellipse) (k : Nat) (hw : 1 ≤ e.size.w) (hh : 1 ≤ e.size.h)
+theorem offset_grow (e : Ellipse) (k : Nat) (_hw : 1 ≤ e.size.w) (_hh : 1 ≤ e.size.h)
     (sw : e.size.w + 2 * k ≤ 4294967295) (sh : e.size.h + 2 * k ≤ 4294967295) :
     e.offset (k : Int) = ⟨⟨e.tl.x - k, e.tl.y - k⟩, ⟨e.size.w + 2 * k, e.size.h + 2 * k⟩⟩ := by
-  rw [offset_def, offsetSize_grow _ _ sw sh, withCenter_def]
-  simp only [Ellipse.mk.injEq, Pt.ext_iff', and_true]
-  constructor <;> omega
+  rw [offset_nonneg e k (by omega), offsetSize_grow _ _ sw sh]
+  simp only [Ellipse.mk.injEq, Pt.ext_iff', Pt.sub_x, Pt.sub_y, and_true]
 
 /-- **`offset` by `-k` shrinks the ellipse by `k` on every side** while something is left. -/
 theorem offset_shrink (e : Ellipse) (k : Nat) (hk : 1 ≤ k) (hw : 2 * k < e.size.w) (hh : 2 * k < e.size.h) :
     e.offset (-(k : Int)) = ⟨⟨e.tl.x + k, e.tl.y + k⟩, ⟨e.size.w - 2 * k, e.size.h - 2 * k⟩⟩ := by
-  rw [offset_def, offsetSize_shrink _ _ hk, withCenter_def]
+  rw [offset_neg e _ (by omega), offsetSize_shrink _ _ hk, withCenter_def]
   simp only [Ellipse.mk.injEq, Pt.ext_iff', and_true]
   constructor <;> omega
 
 theorem offset_shrink_size (e : Ellipse) (k : Nat) (hk : 1 ≤ k) :
     (e.offset (-(k : Int))).size = ⟨e.size.w - 2 * k, e.size.h - 2 * k⟩ := by
-  rw [offset_def, offsetSize_shrink _ _ hk]; rfl
+  rw [offset_size, offsetSize_shrink _ _ hk]
 
 theorem offset_zero (e : Ellipse) (hw : e.size.w ≤ 4294967295) (hh : e.size.h ≤ 4294967295) :
     e.offset 0 = e := by
   have := offsetSize_grow e.size 0 (by omega) (by omega)
   simp only [Int.natCast_zero, Nat.mul_zero, Nat.add_zero] at this
-  rw [offset_def, this, withCenter_def]
+  rw [offset_nonneg e 0 (by omega), this]
   cases e with
   | mk tl size =>
-    simp only [Ellipse.mk.injEq, Pt.ext_iff', and_true]
+    simp only [Ellipse.mk.injEq, Pt.ext_iff', Pt.sub_x, Pt.sub_y, and_true]
     constructor <;> omega
+
+/-- `offset` keeps `center_2x` whenever the ellipse and its offset are not empty (and the grown
+size does not saturate). -/
+theorem offset_center2x (e : Ellipse) (o : Int) (hw : 1 ≤ e.size.w) (hh : 1 ≤ e.size.h)
+    (hw' : 1 ≤ (e.offset o).size.w) (hh' : 1 ≤ (e.offset o).size.h)
+    (hs : o ≥ 0 → (e.offset o).size = ⟨e.size.w + 2 * o.toNat, e.size.h + 2 * o.toNat⟩)
+    (pw : (e.offset o).size.w % 2 = e.size.w % 2) (ph : (e.offset o).size.h % 2 = e.size.h % 2) :
+    (e.offset o).center2x = e.center2x := by
+  by_cases h : o ≥ 0
+  · have hd := hs h
+    rw [Pt.ext_iff', center2x_x, center2x_y, center2x_x, center2x_y, hd]
+    rw [offset_nonneg e o h]
+    simp only [Pt.sub_x, Pt.sub_y]
+    constructor <;> omega
+  · rw [offset_neg e o h] at hw' hh' pw ph ⊢
+    exact withCenter_center2x e _ hw hh hw' hh' pw ph
 
 /-! ### stroke area and fill area -/
 
@@ -80,10 +104,8 @@ theorem strokeArea_size {st : PrimStyle} {e : Ellipse} (hS : (e.strokeArea st).I
   have h0 := PrimStyle.satAsI32_nonneg st.outsideStrokeWidth
   unfold strokeArea at hlw hlh ⊢
   simp only [boundingBox] at hlw hlh
-  rw [offset_def] at hlw hlh ⊢
+  rw [offset_size] at hlw hlh ⊢
   unfold PrimStyle.strokeOffset at hlw hlh ⊢
-  have hsz : ∀ s', (withCenter e.center s').size = s' := fun _ => rfl
-  rw [hsz] at hlw hlh ⊢
   unfold offsetSize Sz.satAdd Sz.newEqual satAddU32 at hlw hlh ⊢
   rw [if_pos (by omega)] at hlw hlh ⊢
   simp only at hlw hlh ⊢
@@ -101,10 +123,8 @@ theorem fillArea_size {st : PrimStyle} {e : Ellipse} (hF : (e.fillArea st).InRan
   have h0 := PrimStyle.satAsI32_nonneg st.insideStrokeWidth
   unfold fillArea at hlw hlh ⊢
   simp only [boundingBox] at hlw hlh
-  rw [offset_def] at hlw hlh ⊢
+  rw [offset_size] at hlw hlh ⊢
   unfold PrimStyle.fillOffset at hlw hlh ⊢
-  have hsz : ∀ s', (withCenter e.center s').size = s' := fun _ => rfl
-  rw [hsz] at hlw hlh ⊢
   by_cases hz : satAsI32 st.insideStrokeWidth = 0
   · rw [hz] at hlw hlh ⊢
     unfold offsetSize Sz.satAdd Sz.newEqual satAddU32 at hlw hlh ⊢
@@ -133,13 +153,25 @@ theorem areas_rel {st : PrimStyle} {e : Ellipse} (hS : (e.strokeArea st).InRange
   refine ⟨by omega, by omega, by omega, ?_⟩
   intro h1 h2
   have hF2 : (e.fillArea st).center2x = e.center2x := by
-    have : e.fillArea st = withCenter e.center (e.fillArea st).size := rfl
-    rw [this, hf]
-    apply withCenter_center2x e _ (by omega) (by omega) <;> simp only <;> omega
+    unfold fillArea at hf ⊢
+    apply offset_center2x e _ (by omega) (by omega)
+    · rw [hf]; simp only; omega
+    · rw [hf]; simp only; omega
+    · intro hge
+      have : st.fillOffset = 0 := by
+        have := PrimStyle.satAsI32_nonneg st.insideStrokeWidth
+        unfold PrimStyle.fillOffset at hge ⊢; omega
+      rw [hf, this]; simp
+    · rw [hf]; simp only; omega
+    · rw [hf]; simp only; omega
   have hS2 : (e.strokeArea st).center2x = e.center2x := by
-    have : e.strokeArea st = withCenter e.center (e.strokeArea st).size := rfl
-    rw [this, hs]
-    apply withCenter_center2x e _ (by omega) (by omega) <;> simp only <;> omega
+    unfold strokeArea at hs ⊢
+    apply offset_center2x e _ (by omega) (by omega)
+    · rw [hs]; simp only; omega
+    · rw [hs]; simp only; omega
+    · intro _; exact hs
+    · rw [hs]; simp only; omega
+    · rw [hs]; simp only; omega
   rw [hF2, hS2]
 
 theorem areas_eq_of_zero_width {st : PrimStyle} (e : Ellipse) (h : st.strokeWidth = 0) :
